@@ -87,6 +87,14 @@ claim("C03",
       "generators randomising through real-valued draws are reported undecided",
       "DESIGN.md 4/C03")
 
+claim("C04",
+      "both converters run on edge lists whose end points are solver variables (forked by networkx hashing: self-loops, "
+      "repeated and reversed pairs included) while names, motif ids and joint-degree entries stay symbolic payload, so "
+      "'the edge carries its own entry's name/id' and the round trips are solver-decided equalities of terms",
+      "bounded: N<=3/4 vertices, <=3/4 edge entries, 1-2 columns; names modelled as opaque integer tokens; pairs occurring "
+      "more than once are unconstrained, as in the property",
+      "DESIGN.md 4/C04")
+
 
 def main():
     props = [json.loads(l)["id"] for l in open(os.path.join(ROOT, "properties.jsonl"))]
